@@ -19,6 +19,7 @@ def run(rep: core.Report):
     rep.rule("R03a", "Hermitian symmetrisation post-dominates every producer of the force-constant part of D(q): the C kernel calls make_Hermitian after both the OpenMP and the serial arm and before its only return; the derivative kernel symmetrises after both arms; the Python reference stores (D + D^H)/2", 4)
     rep.rule("R03b", "make_Hermitian does what its name says: for every pair (i, j>=i) the new a' = (a + conj(b))/2 and b' = conj(a') (algebra of its loop body; loops cover j >= i for all i)", 4)
     rep.rule("R03c", "the masses setter updates primitive, supercell and unit cell through the index maps before the dynamical matrix is rebuilt", 4)
+    _r03d(rep)
     tu = cast.load(DYN)
     fn = tu.functions.get("dym_get_dynamical_matrix_at_q")
     if fn is None:
@@ -118,6 +119,58 @@ def run(rep: core.Report):
     rep.instance("R03c", API, "Phonopy.masses.setter", "all cells are updated before the dynamical matrix is rebuilt", bool(rb) and max(order) < min(rb), "the rebuild precedes a mass update", line=m.lineno)
 
 
+def _r03d(rep):
+    """Orientation of the reciprocal operations: q' = R_rec q with R_rec = +-R^T for every direct rotation R
+    (integer matrices in lattice coordinates are not orthogonal, so R and R^T differ in hexagonal/trigonal axes
+    and in primitive bases of centred lattices)."""
+    from rules.c09 import _orientation
+
+    SYM = "phonopy/structure/symmetry.py"
+    rep.rule("R03d", "every block of the reciprocal point-group operations (the direct half and the time-reversal half) is the transpose of the direct rotations", 2)
+    fn = core.find_def(SYM, "get_pointgroup_operations")
+    rets = [r.value for r in ast.walk(fn) if isinstance(r, ast.Return) and isinstance(r.value, ast.Tuple) and len(r.value.elts) == 2]
+    if len(rets) != 1:
+        raise AnalysisError("R03d: get_pointgroup_operations no longer returns (direct, reciprocal)")
+    d_expr, r_expr = rets[0].elts
+
+    def strip(e):
+        while isinstance(e, ast.Call) and core.src(e.func) in ("np.array", "np.asarray", "np.ascontiguousarray", "list") and e.args:
+            e = e.args[0]
+        return e
+
+    direct = core.src(strip(d_expr))
+    rname = strip(r_expr)
+    if not isinstance(rname, ast.Name):
+        raise AnalysisError("R03d: the reciprocal operations are not held in a local name")
+    blocks = []  # (node, expr)
+    for st in ast.walk(fn):
+        if isinstance(st, ast.Assign) and any(isinstance(t, ast.Name) and t.id == rname.id for t in st.targets):
+            v = st.value
+            if isinstance(v, ast.Call) and core.src(v.func) in ("np.concatenate", "np.vstack") and v.args and isinstance(v.args[0], (ast.Tuple, ast.List)):
+                for part in v.args[0].elts:
+                    if core.src(part) != rname.id:
+                        blocks.append((st, part))
+            elif isinstance(v, ast.BinOp) and isinstance(v.op, ast.Add):
+                for part in (v.left, v.right):
+                    if core.src(part) != rname.id:
+                        blocks.append((st, part))
+            else:
+                blocks.append((st, v))
+        elif isinstance(st, ast.AugAssign) and isinstance(st.target, ast.Name) and st.target.id == rname.id and isinstance(st.op, ast.Add):
+            blocks.append((st, st.value))
+        elif isinstance(st, ast.Expr) and isinstance(st.value, ast.Call) and core.src(st.value.func) in (f"{rname.id}.extend", f"{rname.id}.append") and st.value.args:
+            blocks.append((st, st.value.args[0]))
+    if len(blocks) < 2:
+        raise AnalysisError(f"R03d: only {len(blocks)} block(s) of reciprocal operations found (direct half and time-reversal half expected)")
+    for st, part in blocks:
+        o = _orientation(part, direct)
+        if o is None:
+            rep.unknown(f"R03d: orientation of '{core.src(part)}' relative to '{direct}' not recognised")
+            continue
+        rep.instance("R03d", SYM, "get_pointgroup_operations", f"{core.norm(core.src(part), 60)} : {o}", o == "transposed",
+                     f"the block '{core.norm(core.src(part), 60)}' of the reciprocal operations holds the direct rotations untransposed: such an operation is not an isometry of the reciprocal lattice unless the basis is orthogonal, so the spectrum at R q differs from that at q (non-centrosymmetric crystals in hexagonal axes or primitive bases of centred lattices)", line=st.lineno)
+
+
 def selftest():
     V = []
     b = lambda name, file, old, new, rule, expect="", **kw: V.append(dict(name=name, kind="break", file=file, old=old, new=new, rule=rule, expect=expect, **kw))
@@ -127,5 +180,9 @@ def selftest():
     b("diagonal skipped", DYN, "        for (j = i; j < num_band; j++) {\n            adrs = i * num_band + j;", "        for (j = i + 1; j < num_band; j++) {\n            adrs = i * num_band + j;", "R03b", "loops")
     V.append(dict(name="inner loop starts at zero (idempotent update)", kind="neutral", file=DYN, old="        for (j = i; j < num_band; j++) {\n            adrs = i * num_band + j;", new="        for (j = 0; j < num_band; j++) {\n            adrs = i * num_band + j;"))
     b("python reference skips symmetrisation", PYDM, "        self._dynamical_matrix = (dm + dm.conj().transpose()) / 2", "        self._dynamical_matrix = dm", "R03a", "_run_py_dynamical_matrix")
+    SYMF = "phonopy/structure/symmetry.py"
+    b("time-reversal half untransposed", SYMF, "            reciprocal_rotations += [-rot.T for rot in ptg_ops]", "            reciprocal_rotations += [-rot for rot in ptg_ops]", "R03d", "get_pointgroup_operations")
+    b("direct half untransposed", SYMF, "    reciprocal_rotations = [rot.T for rot in ptg_ops]", "    reciprocal_rotations = [rot for rot in ptg_ops]", "R03d", "get_pointgroup_operations")
+    V.append(dict(name="time-reversal half with np.transpose", kind="neutral", file=SYMF, old="            reciprocal_rotations += [-rot.T for rot in ptg_ops]", new="            reciprocal_rotations += [-np.transpose(rot) for rot in ptg_ops]"))
     b("unit cell masses not updated", API, "        self._unitcell.set_masses(u_masses)\n", "", "R03c", "set_masses")
     return V
